@@ -1,1 +1,4 @@
 import Props.C01
+import Props.C05
+import Props.C08
+import Props.C09
